@@ -129,8 +129,8 @@ Theorem closed_endpoint_inert : forall s o, closed (io (ea s)) = true ->
 Proof. exact closed_inert. Qed.
 
 (* "Never disturbs": in a history of PERMITTED operations only (Spec.honest_op: no injected
-   records, no lying PHA client, CertificateRequests with a well-formed compress_certificate
-   list) between endpoints whose post-handshake flags are consistent (Spec.init_ok: roles,
+   records, no lying or replaying PHA client; client-auth requests with ANY compression setting)
+   between endpoints whose post-handshake flags are consistent (Spec.init_ok: roles,
    heartbeat negotiated on both sides or on neither, PHA only if the client offered it and has a
    chain, recordSize >= 1), NO fatal alert is ever sent by either endpoint -- whatever the
    interleaving of writes, reads, KeyUpdates (any number, both sides), client-auth requests (any
@@ -143,13 +143,10 @@ Theorem honest_never_fatal : forall v13 cc sc nst ops,
   alerts (io (ea s)) = [] /\ alerts (io (eb s)) = [].
 Proof. exact honest_never_fatal_all. Qed.
 
-(* A permitted operation can kill the connection (F13): the hypothesis "well-formed
-   compress_certificate list" of honest_never_fatal cannot be dropped. request_post_handshake_auth with
-   certificate_compression_receive=[] makes the server's own next read send decode_error. *)
-Theorem honest_pha_request_fatal_refuted : exists cc sc,
-  let s := exec (init true cc sc 0) [(false, ORequestAuth false); (false, ORead 0)] in
-  closed (io (eb s)) = true /\ alerts (io (eb s)) = [50].
-Proof. exact f13_witness. Qed.
+(* (F13, repaired in tlslite-ng by a078a25: a client-auth request made with
+   certificate_compression_receive=[] used to kill the connection at the server's next read; the
+   request is now well formed whatever the setting, [ORequestAuth false] is an honest operation
+   and is covered by honest_never_fatal; see ex_pha_request_without_compression.) *)
 
 (* ---- Examples: the hypotheses are satisfiable / the invariant is exercised on a non-trivial history *)
 Example ex_simultaneous_update :
@@ -172,6 +169,12 @@ Proof. vm_compute. repeat split. Qed.
 Example ex_bad_control_hypotheses :
   bad_control true (ep0 ex_sc) (MKU 2) = Some 47 /\ bad_control true (ep0 ex_sc) (MCert 5 7) = Some 10 /\
   bad_control false (ep0 ex_cc) MNST = Some 10 /\ bad_control true (ep0 ex_cc) (MKU 1) = None.
+Proof. vm_compute. repeat split. Qed.
+
+Example ex_pha_request_without_compression :
+  let s := exec (init true ex_cc ex_sc 0)
+             [(false, ORequestAuth false); (false, ORead 0); (true, ORead 0); (false, ORead 0)] in
+  alerts (io (eb s)) = [] /\ alerts (io (ea s)) = [] /\ closed (io (eb s)) = false /\ chain (au (eb s)) = 7.
 Proof. vm_compute. repeat split. Qed.
 
 Example ex_init_ok : init_ok ex_cc ex_sc.
